@@ -2,8 +2,11 @@
 C17 — Shared subscriptions hand each message to exactly one group member.
 -/
 import Proofs.Lemmas.Router.Frame
+import Proofs.Lemmas.Router.Rp3_ReqRun
+import Proofs.Lemmas.Router.Rp1_Ack
+import Proofs.Lemmas.Router.Rp2_Payload
 namespace C17
-open Router
+open Router Router.Rp3 CommitLog
 
 /-- the member whose turn it is, is a member -/
 theorem current_is_member (g : SharedGroup) (c : String) (h : g.current = some c) : c ∈ g.clients := by
@@ -50,5 +53,443 @@ theorem next_turn_stays_valid (s s' : RState) (g g' : SharedGroup) (hv : g.idx <
           exact ⟨rfl, hn⟩
         · simp at h
       · simp at h
+
+/-! ### one sweep through a shared group -/
+
+/-- C17 "never to a non-member through the group" / the skip rule. A sweep for a shared request by
+    a connection whose client id is NOT the group's current member pushes nothing: links, groups,
+    connections and logs are exactly as before (only the oracle may have been consumed). -/
+theorem non_current_member_pushes_nothing (s s' : RState) (id : Nat) (c : Conn) (req req' : DataRequest)
+    (st : ConsumeStatus) (gname : String) (g : SharedGroup)
+    (hc : getConn s id = some c) (hgn : req.group = some gname) (hg : alookup gname s.shared = some g)
+    (hturn : some c.clientId ≠ g.current)
+    (h : forwardDeviceData s id req = .ok (s', req', st)) :
+    s'.links = s.links ∧ s'.shared = s.shared ∧ s'.conns = s.conns ∧ s'.datalog = s.datalog ∧
+    (st = .inflightFull ∨ st = .filterCaughtup ∨ st = .skipRequest) := by
+  obtain ⟨ho, hs⟩ := sweep_shared_skip hc hgn hg hturn h
+  refine ⟨?_, ?_, ?_, ?_, hs⟩ <;> rw [ho]
+
+/-- C17.3 `only_members`. A connection whose client id is not listed in `group.clients` never
+    pushes anything through that group — in any state, for any request. -/
+theorem only_members (s s' : RState) (id : Nat) (c : Conn) (req req' : DataRequest)
+    (st : ConsumeStatus) (gname : String) (g : SharedGroup)
+    (hc : getConn s id = some c) (hgn : req.group = some gname) (hg : alookup gname s.shared = some g)
+    (hnot : c.clientId ∉ g.clients)
+    (h : forwardDeviceData s id req = .ok (s', req', st)) :
+    s'.links = s.links ∧ s'.shared = s.shared ∧ s'.conns = s.conns ∧ s'.datalog = s.datalog :=  by
+  have hturn : some c.clientId ≠ g.current := fun e => hnot (current_is_member g c.clientId e.symm)
+  obtain ⟨a, b, c', d, _⟩ := non_current_member_pushes_nothing s s' id c req req' st gname g hc hgn hg hturn h
+  exact ⟨a, b, c', d⟩
+
+/-- C17 (the current member's sweep). When it is this member's turn (and its inflight window is
+    not full) the sweep reads from the GROUP's cursor, pushes to this member's link — and to no
+    other link — exactly the forwards of the entries read (after a retained replay, which shared
+    requests never owe), and, whenever something was pushed — also when the sweep ends with
+    `BufferFull` — stores the continuation as the group's cursor and advances the turn per
+    strategy (sticky: same member; round robin: next member; random: any member, the oracle's
+    draw); members, strategy and all other groups are unchanged. If nothing was pushed the group
+    is unchanged. -/
+theorem current_member_sweep_advances_group (s s' : RState) (id : Nat) (c : Conn) (req req' : DataRequest)
+    (st : ConsumeStatus) (gname : String) (g : SharedGroup)
+    (hc : getConn s id = some c) (hgn : req.group = some gname) (hg : alookup gname s.shared = some g)
+    (hturn : some c.clientId = g.current)
+    (h : forwardDeviceData s id req = .ok (s', req', st)) (hst : st ≠ .inflightFull) :
+    ∃ (replay : List Pub) (n : Nat) (fd : FilterData),
+      s.datalog.native[req.filterIdx]? = some fd ∧ s'.datalog = s.datalog ∧
+      (req.forwardRetained = false → replay = []) ∧
+      (getLink s' c.link).obuf.map Notif.noPkid =
+        (getLink s c.link).obuf.map Notif.noPkid ++
+        (replay.map (fun p => (p, none)) ++
+          (fd.log.readv g.cursor n).1.map (fun e : Pub × Router.Cursor => (e.1, some e.2))).map
+          (fwdOf req.qos (sweepAlias c req.filter).2
+            ((aliasesFor c req.filter).bind (fun b => alookup req.filter b.aliases)).isSome
+            (alookup req.filter c.subscriptionIds)) ++
+        (if st = .bufferFull then [Notif.unschedule] else []) ∧
+      (∀ l, l ≠ c.link → getLink s' l = getLink s l) ∧
+      req'.cursor = (posNext (fd.log.readv g.cursor n).2).1 ∧
+      ((replay = [] ∧ (fd.log.readv g.cursor n).1 = []) → s'.shared = s.shared) ∧
+      (¬ (replay = [] ∧ (fd.log.readv g.cursor n).1 = []) →
+        (∃ g', alookup gname s'.shared = some g' ∧ g'.cursor = (posNext (fd.log.readv g.cursor n).2).1 ∧
+          g'.clients = g.clients ∧ g'.strategy = g.strategy ∧
+          (g.strategy = .sticky → g'.idx = g.idx) ∧
+          (g.strategy = .roundRobin → g'.idx = (g.idx + 1) % g.clients.length) ∧
+          (g.strategy = .random → g'.idx < g.clients.length)) ∧
+        (∀ other, other ≠ gname → alookup other s'.shared = alookup other s.shared)) := by
+  obtain ⟨s1, rp, n, fd, hr, hfd, hreq, hobuf, hother, hdl, hemp, hne⟩ := sweep_shared_turn hc hgn hg hturn h hst
+  obtain ⟨_, _, hnone, hfr⟩ := sweepRetained_spec hr
+  have hrp : rp = (rp.map (·.1)).map (fun p => (p, none)) := by
+    rw [List.map_map]
+    conv => lhs; rw [← List.map_id rp]
+    apply List.map_congr_left
+    intro pc hpc
+    have := hnone pc hpc
+    obtain ⟨a, b⟩ := pc
+    simp only at this; subst this; rfl
+  have hpubs : sweepPubs rp (fd.log.readv g.cursor n) = [] ↔ (rp.map (·.1) = [] ∧ (fd.log.readv g.cursor n).1 = []) := by
+    unfold sweepPubs
+    simp [List.append_eq_nil_iff]
+  refine ⟨rp.map (·.1), n, fd, hfd, hdl, ?_, ?_, hother, by rw [hreq]; rfl, ?_, ?_⟩
+  · intro hf; rw [(hfr hf).1]; rfl
+  · rw [hobuf, List.map_append, List.map_append, hreq, sweepNotifs_noPkid]
+    unfold sweepPubs
+    rw [← hrp]
+    have : List.map Notif.noPkid (if st = .bufferFull then [Notif.unschedule] else []) =
+        (if st = .bufferFull then [Notif.unschedule] else []) := by split <;> rfl
+    rw [this]; rfl
+  · intro he; exact (hemp (hpubs.mpr he)).1
+  · intro hn
+    obtain ⟨hg', hoth, _⟩ := hne (fun e => hn (hpubs.mp e))
+    exact ⟨hg', hoth⟩
+
+/-- C17.1 `at_most_one_member`, C17.2 `member_order` at sweep level. After a sweep by the current
+    member that forwarded log entries, the group's cursor stands right behind them; therefore
+    whatever the NEXT sweep through this group reads — by any member, with any window — has
+    strictly larger log offsets than everything just forwarded: two consecutive group sweeps
+    deliver disjoint, increasing offset ranges, and each sweep's own offsets are consecutive. -/
+theorem at_most_one_member_sweeps (s s' : RState) (id : Nat) (c : Conn) (req req' : DataRequest)
+    (st : ConsumeStatus) (gname : String) (g : SharedGroup)
+    (hc : getConn s id = some c) (hgn : req.group = some gname) (hg : alookup gname s.shared = some g)
+    (hturn : some c.clientId = g.current)
+    (h : forwardDeviceData s id req = .ok (s', req', st)) (hst : st ≠ .inflightFull)
+    (hlog : ∀ fd, s.datalog.native[req.filterIdx]? = some fd → ∃ hist, Rep (logC fd.log) hist ∧
+      Issued (logC fd.log) g.cursor ∧ hist.length + (MAX_INFLIGHT + s.config.maxOutgoingPacketCount) < U64) :
+    ∃ (n : Nat) (fd : FilterData),
+      s.datalog.native[req.filterIdx]? = some fd ∧ s'.datalog.native[req.filterIdx]? = some fd ∧
+      readOffsets fd g.cursor n = List.range' (cursorAbs (logC fd.log) g.cursor) (readOffsets fd g.cursor n).length ∧
+      ((fd.log.readv g.cursor n).1 ≠ [] →
+        ∃ g', alookup gname s'.shared = some g' ∧ Issued (logC fd.log) g'.cursor ∧
+          ∀ (m : Nat), m ≤ MAX_INFLIGHT + s.config.maxOutgoingPacketCount →
+            ∀ o1 ∈ readOffsets fd g.cursor n, ∀ o2 ∈ readOffsets fd g'.cursor m, o1 < o2) := by
+  obtain ⟨s1, rp, n, fd, hr, hfd, hreq, hobuf, hother, hdl, hemp, hne⟩ := sweep_shared_turn hc hgn hg hturn h hst
+  obtain ⟨hist, hrep, hiss, hU⟩ := hlog fd hfd
+  obtain ⟨_, hlen, _, _⟩ := sweepRetained_spec hr
+  have hslots : n ≤ MAX_INFLIGHT + s.config.maxOutgoingPacketCount := by
+    have : sweepSlots s c { req with cursor := g.cursor } (some g) ≤ MAX_INFLIGHT + s.config.maxOutgoingPacketCount := by
+      unfold sweepSlots Outgoing.freeSlots MAX_INFLIGHT
+      simp only []
+      split <;> (try split) <;> omega
+    omega
+  obtain ⟨_, v2, _⟩ := clog_readv_entries fd.log hist hrep g.cursor n hiss (by omega)
+  obtain ⟨_, _, e3, _⟩ := clog_readv_spec fd.log hist hrep g.cursor n hiss (by omega)
+  refine ⟨n, fd, hfd, by rw [hdl]; exact hfd, ?_, ?_⟩
+  · unfold readOffsets; rw [List.length_map]; exact v2
+  · intro hent
+    have hpn : sweepPubs rp (fd.log.readv g.cursor n) ≠ [] := by
+      unfold sweepPubs
+      intro e
+      have := (List.append_eq_nil_iff.mp e).2
+      exact hent (by simpa using this)
+    obtain ⟨⟨g', hl, hcur, _⟩, _, _⟩ := hne hpn
+    refine ⟨g', hl, by rw [hcur]; exact e3, ?_⟩
+    intro m hm
+    rw [hcur]
+    exact consecutive_reads_disjoint fd hist hrep g.cursor n m hiss (by omega) (by omega)
+
+/-! ### history level -/
+
+/-- C17.1 `at_most_one_member` + C17.2 `member_order`, history level, PARTIAL. Take any stretch of
+    a run as seen from one group (`GroupRun`): sweeps of the group's requests by ANY connections,
+    in any order and number, each contributing the log offsets it appended to its link's outgoing
+    buffer (`linkOffsets`, an observable), interleaved with arbitrary other router steps that leave
+    the group's cursor where it is and its log segment retained. If at the start the group's cursor
+    is an issued, retained cursor of the (well-formed) filter log, then the offsets forwarded
+    through the group, in push order and whoever the receiving member, are EXACTLY the consecutive
+    log offsets from the starting cursor — strictly increasing, so no log entry is forwarded
+    through the group twice, to the same or to different members, every member's share is
+    increasing, and nothing in between is skipped.
+    Missing for the unrestricted statement (every reachable run): a proof that each router step
+    satisfies the `other` premise. It does not for (a) the disconnect of a persistent member with
+    unacknowledged forwards of this filter — `handle_disconnection` rewinds the GROUP's cursor to
+    the retransmission point, so those entries are forwarded again (to whoever is next: intended
+    QoS 1/2 redelivery, but a second forward through the group); (b) removal of the last member
+    and later re-creation of the group (fresh cursor at the log's tail: entries are skipped, none
+    repeated); (c) eviction of the cursor's segment (C13: the read resumes at the oldest retained
+    entry, later offsets only). -/
+theorem at_most_one_member_partial (gname : String) (idx : Nat) (s s2 : RState) (offs : List Nat)
+    (cur : Router.Cursor) (hat : GroupAt gname idx s cur) (hrun : GroupRun gname idx s offs s2) :
+    offs = List.range' cur.2 offs.length ∧ offs.Pairwise (· < ·) ∧ offs.Nodup := by
+  obtain ⟨h1, _, _⟩ := groupRun_increasing hrun hat
+  exact ⟨(groupRun_contiguous hrun hat).1, h1, h1.imp (fun hlt => Nat.ne_of_lt hlt)⟩
+
+/-- the full-strength history statement is NOT claimed, and is false for the code as it is: the
+    rewind on disconnect re-forwards. What the rewind does (model level): the saved request and the
+    group's cursor are both set back to the first unacknowledged cursor of the filter. -/
+theorem rewind_moves_group_cursor_back (sh : List (String × SharedGroup)) (gname : String) (grp : SharedGroup)
+    (r : DataRequest) (c : Router.Cursor) (retx : List (Nat × Router.Cursor))
+    (hr : nlookup r.filterIdx retx = some c) (hg : r.group = some gname) (hs : alookup gname sh = some grp) :
+    alookup gname (rewindRequests sh retx [r] []).1 = some { grp with cursor := c } := by
+  simp [rewindRequests, hr, hg, hs, alookup_ainsert_same]
+
+/-! ### a parked member is woken when the turn passes to it (repair of the shared-subscription stall)
+
+A member of a shared group whose request found nothing to read — or whose turn it was not — is
+parked on the group's log and is only woken by an append to that log. When the turn passes to a
+parked member without an append (the current member's sweep advanced the turn; the current member
+unsubscribed or disconnected) nobody would serve the group any more. The router therefore notes
+the logs of the groups whose turn moved (`turn_moved`: `noteTurn`, `unsubscribeFilters`,
+`turnMovedLogs`) and, at the end of the call, hands the requests parked on these logs back to their
+trackers (`wake_parked`), exactly as an append would. -/
+
+/-- C17 (`wake_parked`). After `wake_parked(logs)`: every request that was parked on one of these
+    logs is in the tracker of its (live) connection again, and that connection's tracker is not
+    `Paused(Caughtup)` — it is in the ready queue, or waits for its link (`Busy`) or for an
+    acknowledgement (`InflightFull`), after which it is polled again —; the waiter lists of these logs
+    are empty, those of all other logs are as before; no tracked request is lost -/
+theorem wake_parked_hands_back_parked_requests {logs : List Nat} {s s' : RState} (h : wakeParked s logs = .ok s') :
+    (∀ i ∈ logs, ∀ fd, s.datalog.native[i]? = some fd →
+        ∀ w ∈ fd.waiters, Tracked s' w.1 w.2 ∧ NotCaughtup s' w.1) ∧
+    (∀ (i : Nat) fd, s.datalog.native[i]? = some fd →
+        ∃ fd', s'.datalog.native[i]? = some fd' ∧ fd'.waiters = (if i ∈ logs then [] else fd.waiters)) ∧
+    (∀ j q, Tracked s j q → Tracked s' j q) ∧ (∀ j, NotCaughtup s j → NotCaughtup s' j) :=
+  wakeParked_spec h
+
+/-- what the two predicates say -/
+theorem tracked_notCaughtup_spec (s : RState) (id : Nat) (r : DataRequest) :
+    (Tracked s id r ↔ ∃ c, getConn s id = some c ∧ r ∈ c.tracker.requests) ∧
+    (NotCaughtup s id ↔ ∃ c, getConn s id = some c ∧ c.tracker.status ≠ .paused .caughtup) := ⟨Iff.rfl, Iff.rfl⟩
+
+/-- C17 (the end of `consume` / `handle_device_payload`). `wakeTurnMoved` wakes the requests parked
+    on every log noted in `turn_moved` and forgets the note -/
+theorem wake_turn_moved_spec {s s' : RState} (h : wakeTurnMoved s = .ok s') :
+    s'.turnMoved = [] ∧
+    ∀ i ∈ s.turnMoved, ∀ fd, s.datalog.native[i]? = some fd →
+      (∀ w ∈ fd.waiters, Tracked s' w.1 w.2 ∧ NotCaughtup s' w.1) ∧
+      ∃ fd', s'.datalog.native[i]? = some fd' ∧ fd'.waiters = [] := by
+  refine ⟨wakeTurnMoved_turnMoved h, fun i hi fd hfd => ?_⟩
+  obtain ⟨a, b, _, _⟩ := wakeParked_spec (s := { s with turnMoved := [] }) h
+  refine ⟨a i hi fd hfd, ?_⟩
+  obtain ⟨fd', h1, h2⟩ := b i fd hfd
+  exact ⟨fd', h1, by simpa [hi] using h2⟩
+
+/-- C17 (a sweep that passes the turn is noted). In the request loop of `consume`: if the sweep for
+    the first request `req` changes whose turn it is in the request's group (`g0` before, `g1` after
+    the sweep), the index of the group's log is in `turn_moved` when the loop ends — whatever the
+    remaining iterations do -/
+theorem sweep_that_passes_the_turn_is_noted {s s1 s2 : RState} {id fuel : Nat} {req req1 : DataRequest}
+    {rest skipped : List DataRequest} {st : ConsumeStatus} {g0 g1 : SharedGroup}
+    (hf : forwardDeviceData s id req = .ok (s1, req1, st))
+    (h0 : req1.group.bind (fun g => alookup g s.shared) = some g0)
+    (h1 : req1.group.bind (fun g => alookup g s1.shared) = some g1)
+    (hmoved : g1.current ≠ g0.current)
+    (h : consumeLoop s id (fuel + 1) (req :: rest) skipped = .ok s2) :
+    req1.filterIdx ∈ s2.turnMoved := by
+  have a : req1.filterIdx ∈ (noteTurn s s1 req1).turnMoved := by
+    rw [noteTurn_turnMoved, h0, h1]
+    simp [hmoved]
+  simp only [consumeLoop, hf] at h
+  cases st with
+  | bufferFull =>
+    simp only [] at h
+    split at h
+    · simp at h
+    · rename_i s3 h3; rw [trackv_turnMoved h, pause_turnMoved h3]; exact a
+  | inflightFull =>
+    simp only [] at h
+    split at h
+    · simp at h
+    · rename_i s3 h3; rw [trackv_turnMoved h, pause_turnMoved h3]; exact a
+  | filterCaughtup =>
+    simp only [] at h
+    split at h
+    · simp at h
+    · rename_i s3 h3
+      exact consumeLoop_turnMoved_sub fuel h _ (by rw [park_turnMoved h3]; exact a)
+  | partialRead => exact consumeLoop_turnMoved_sub fuel h _ a
+  | skipRequest => exact consumeLoop_turnMoved_sub fuel h _ a
+
+/-- C17 (`consume` wakes the member the turn passed to). A `consume` that served a connection is its
+    request loop (from some state `s0`, ending in `s2`) followed by the wake-up: in the final state
+    `turn_moved` is empty again, and for every log noted during the loop (`s2.turnMoved`, see
+    `sweep_that_passes_the_turn_is_noted`) every request that was parked on it — in particular the
+    one of the member that now holds the turn — is back in its connection's tracker, that
+    connection is not `Paused(Caughtup)`, and the log's waiter list is empty -/
+theorem consume_wakes_members_the_turn_passed_to {s s' : RState} (h : consume s = .ok (s', true)) :
+    ∃ s0 id reqs s2, consumeLoop s0 id MAX_SCHEDULE_ITERATIONS reqs [] = .ok s2 ∧
+      s'.turnMoved = [] ∧
+      ∀ i ∈ s2.turnMoved, ∀ fd, s2.datalog.native[i]? = some fd →
+        (∀ w ∈ fd.waiters, Tracked s' w.1 w.2 ∧ NotCaughtup s' w.1) ∧
+        ∃ fd', s'.datalog.native[i]? = some fd' ∧ fd'.waiters = [] := by
+  unfold consume at h
+  split at h
+  · simp at h
+  · simp only [] at h
+    split at h
+    · simp at h
+    · split at h
+      · simp at h
+      · rename_i s2 hl
+        split at h
+        · simp at h
+        · rename_i s3 hw
+          simp only [Except.ok.injEq, Prod.mk.injEq, and_true] at h; subst h
+          obtain ⟨e, sp⟩ := wake_turn_moved_spec hw
+          exact ⟨_, _, _, s2, hl, e, sp⟩
+
+/-- the note is local to one call: in every reachable state (between two steps) `turn_moved` is empty -/
+theorem turn_moved_is_empty_between_steps {cfg : Config} {s : RState} (hr : Reachable cfg s) :
+    s.turnMoved = [] := turnMoved_reachable hr
+
+/-- which logs `handle_disconnection` wakes: those of the groups the closed client leaves that stay
+    non-empty and whose turn passes to another member by that (group key `<share>/<path>`, the log is
+    the one of `<path>`) -/
+theorem mem_turnMovedLogs (d : DataLog) (sh : List (String × SharedGroup)) (client : String) (i : Nat) :
+    i ∈ turnMovedLogs d sh client ↔
+      ∃ p ∈ sh, (p.2.removeClient client).clients ≠ [] ∧ (p.2.removeClient client).current ≠ p.2.current ∧
+        ∃ share path, extractGroup ("$share/" ++ p.1) = some (share, path) ∧ d.filterIdx? path = some i := by
+  unfold turnMovedLogs
+  simp only [List.mem_flatMap]
+  constructor
+  · rintro ⟨p, hp, hi⟩
+    refine ⟨p, hp, ?_⟩
+    split at hi
+    · rename_i hc
+      simp only [Bool.and_eq_true, Bool.not_eq_true', bne_iff_ne, ne_eq] at hc
+      refine ⟨fun e => by simp [e] at hc, hc.2, ?_⟩
+      split at hi
+      · rename_i sh' path he
+        exact ⟨sh', path, he, by simpa using hi⟩
+      · simp at hi
+    · simp at hi
+  · rintro ⟨p, hp, hne, hcur, share, path, he, hfi⟩
+    refine ⟨p, hp, ?_⟩
+    have hc : (!(p.2.removeClient client).clients.isEmpty && (p.2.removeClient client).current != p.2.current) = true := by
+      simp only [Bool.and_eq_true, Bool.not_eq_true', bne_iff_ne, ne_eq]
+      exact ⟨by cases h : (p.2.removeClient client).clients with
+                | nil => exact absurd h hne
+                | cons _ _ => rfl, hcur⟩
+    simp only [hc, if_true, he, hfi]
+    simp
+
+/-- C17 (`handle_disconnection` wakes the member the turn passed to). When connection `id` (client
+    `c.clientId`) is closed, for every log of `turnMovedLogs` (computed on the datalog from which the
+    closed connection's own parked requests have already been removed, `datalogClean`, and the shared
+    groups before the client leaves them): every request still parked on it — they belong to other
+    connections — is back in its connection's tracker afterwards, that connection is not
+    `Paused(Caughtup)`, and the log's waiter list is empty -/
+theorem disconnection_wakes_members_the_turn_passed_to {s s' : RState} {id : Nat} {r : Option String} {c : Conn}
+    (hc : getConn s id = some c) (h : handleDisconnection s id r = .ok s') :
+    ∀ i ∈ turnMovedLogs (datalogClean s.datalog id).1 s.shared c.clientId, ∀ fd,
+      (datalogClean s.datalog id).1.native[i]? = some fd →
+      (∀ w ∈ fd.waiters, Tracked s' w.1 w.2 ∧ NotCaughtup s' w.1) ∧
+      ∃ fd', s'.datalog.native[i]? = some fd' ∧ fd'.waiters = [] := by
+  intro i hi fd hfd
+  rw [handleDisconnection_eq] at h
+  simp only [hc] at h
+  obtain ⟨a, b, _, _⟩ := wakeParked_spec h
+  have hd : (hdFinal s id c r).datalog = (datalogClean s.datalog id).1 := (hdFinal_fields s id c r).2.2.2.2.2.2.2.1
+  have hm : hdMoved (hdNotify s c r) id c = turnMovedLogs (datalogClean s.datalog id).1 s.shared c.clientId := by
+    unfold hdMoved; cases r <;> rfl
+  rw [hm] at a b
+  rw [hd] at a b
+  refine ⟨a i hi fd hfd, ?_⟩
+  obtain ⟨fd', h1, h2⟩ := b i fd hfd
+  exact ⟨fd', h1, by simpa [hi] using h2⟩
+
+/-! ### non-vacuity -/
+
+/-- `GroupRun` is inhabited by the empty stretch, and a step that changes nothing is an `other` step -/
+example (gname : String) (idx : Nat) (s : RState) : GroupRun gname idx s [] s :=
+  GroupRun.other (s1 := s) (fun _ h => h) (GroupRun.done s)
+
+
+/-- a group where it is `a`'s turn and `b` is a member waiting: both hypotheses shapes occur -/
+example : (⟨["a", "b"], 0, (0, 0), .roundRobin⟩ : SharedGroup).current = some "a" ∧
+    some "b" ≠ (⟨["a", "b"], 0, (0, 0), .roundRobin⟩ : SharedGroup).current ∧
+    "c" ∉ (⟨["a", "b"], 0, (0, 0), .roundRobin⟩ : SharedGroup).clients := by decide
+
+/-- non-vacuity on a concrete state (kernel-evaluated): `a` and `b` are the members of group `g/t`
+    (round robin, `a`'s turn, cursor `(0, 0)`), the log of `t` holds two entries. A sweep by `b`
+    pushes nothing and leaves the group alone (`SkipRequest`); a sweep by `a` pushes one forward
+    (round robin reads one entry), after which the group's cursor is `(0, 1)` and it is `b`'s turn. -/
+example :
+    (match
+       forwardDeviceData
+        { config := ⟨10, 1024, 2, 10, .roundRobin⟩, links := [{}, {}],
+          conns := ⟨[some { clientId := "a", link := 0, clean := true, dynamicFilters := false, tracker := { id := "a" } },
+                     some { clientId := "b", link := 1, clean := true, dynamicFilters := false, tracker := { id := "b" } }], []⟩,
+          shared := [("g/t", ⟨["a", "b"], 0, (0, 0), .roundRobin⟩)],
+          datalog := { native := [{ filter := "t", log := (((CLog.Log.new 1024 2).append (⟨0, 0, false, false, [116], [1], none, [], false⟩ : Pub) 6).1.append
+                                      (⟨0, 0, false, false, [116], [2], none, [], false⟩ : Pub) 6).1 }],
+                       filterIndexes := [("t", 0)] } }
+        1 ⟨"$share/g/t", 0, 0, (0, 0), false, some "g/t"⟩,
+       forwardDeviceData
+        { config := ⟨10, 1024, 2, 10, .roundRobin⟩, links := [{}, {}],
+          conns := ⟨[some { clientId := "a", link := 0, clean := true, dynamicFilters := false, tracker := { id := "a" } },
+                     some { clientId := "b", link := 1, clean := true, dynamicFilters := false, tracker := { id := "b" } }], []⟩,
+          shared := [("g/t", ⟨["a", "b"], 0, (0, 0), .roundRobin⟩)],
+          datalog := { native := [{ filter := "t", log := (((CLog.Log.new 1024 2).append (⟨0, 0, false, false, [116], [1], none, [], false⟩ : Pub) 6).1.append
+                                      (⟨0, 0, false, false, [116], [2], none, [], false⟩ : Pub) 6).1 }],
+                       filterIndexes := [("t", 0)] } }
+        0 ⟨"$share/g/t", 0, 0, (0, 0), false, some "g/t"⟩ with
+     | .ok (sb, _, stb), .ok (sa, ra, sta) =>
+       decide (stb = .skipRequest ∧ (getLink sb 1).obuf.length = 0 ∧
+         (alookup "g/t" sb.shared).map (fun g => (g.idx, g.cursor)) = some (0, (0, 0)) ∧
+         sta = .partialRead ∧ (getLink sa 0).obuf.length = 1 ∧ ra.cursor = (0, 1) ∧
+         (alookup "g/t" sa.shared).map (fun g => (g.clients, g.idx, g.cursor)) = some (["a", "b"], 1, (0, 1)))
+     | _, _ => false) = true := by decide
+
+/-! non-vacuity of the wake-up theorems: hand-built states in which the turn passes to a parked member -/
+
+def stallReq : DataRequest := ⟨"$share/g/t", 0, 1, (0, 0), false, some "g/t"⟩
+
+/-- `a` (id 0) and `b` (id 1) share `$share/g/t`; it is `a`'s turn; `b`'s request is parked on the
+    log of `t` (index 0) and `b`'s tracker is `Paused(Caughtup)` -/
+def stallState : RState :=
+  { config := ⟨10, 1024, 2, 10, .roundRobin⟩, links := [{}, {}],
+    conns := ⟨[some { clientId := "a", link := 0, clean := true, dynamicFilters := false,
+                      subscriptions := ["$share/g/t"], tracker := { id := "a", status := .paused .caughtup } },
+               some { clientId := "b", link := 1, clean := true, dynamicFilters := false,
+                      subscriptions := ["$share/g/t"], tracker := { id := "b", status := .paused .caughtup } }], []⟩,
+    connectionMap := [("a", 0), ("b", 1)],
+    subscriptionMap := [("$share/g/t", [0, 1])],
+    shared := [("g/t", ⟨["a", "b"], 0, (0, 0), .roundRobin⟩)],
+    datalog := { native := [{ filter := "t", log := CLog.Log.new 1024 2, waiters := [(1, stallReq)] }],
+                 filterIndexes := [("t", 0)] } }
+
+/-- non-vacuity, disconnection (evaluated on the kernel-executable form, see Rp1_Decomp.lean): the
+    turn passes from `a` to the parked `b`; `b`'s request is handed back and `b` is scheduled -/
+example : turnMovedLogs stallState.datalog stallState.shared "a" = [0] := by decide
+
+example : ∃ s', handleDisconnection stallState 0 none = .ok s' ∧
+    (getConn s' 1).map (fun c => (c.tracker.requests, c.tracker.status)) = some ([stallReq], .ready) ∧
+    s'.readyqueue = [1] ∧ s'.datalog.native.map (·.waiters) = [[]] ∧
+    (alookup "g/t" s'.shared).map (fun g => (g.clients, g.current)) = some (["b"], some "b") :=
+  ⟨_, (handleDisconnection_eqX _ _ _).trans rfl, by decide, by decide, by decide, by decide⟩
+
+/-- non-vacuity, UNSUBSCRIBE: the same when `a` unsubscribes instead: the log is noted during the packet and woken at the end
+    of `handle_device_payload` -/
+example : ∃ s', events { stallState with links := [{ ibuf := [.unsubscribe 5 ["$share/g/t"]] }, {}] } 0 .deviceData = .ok s' ∧
+    (getConn s' 1).map (fun c => (c.tracker.requests, c.tracker.status)) = some ([stallReq], .ready) ∧
+    s'.readyqueue = [0, 1] ∧ s'.datalog.native.map (·.waiters) = [[]] ∧ s'.turnMoved = [] :=
+  ⟨_, (events_eqX _ _ _).trans rfl, by decide, by decide, by decide, by decide⟩
+
+def stallReqA : DataRequest := ⟨"$share/g/t", 0, 0, (0, 0), false, some "g/t"⟩
+def stallReqB : DataRequest := ⟨"$share/g/t", 0, 0, (0, 0), false, some "g/t"⟩
+
+/-- `a` is scheduled with its request, `b`'s request is parked; the log of `t` holds two entries -/
+def stallState2 : RState :=
+  { config := ⟨10, 1024, 2, 10, .roundRobin⟩, links := [{}, {}],
+    conns := ⟨[some { clientId := "a", link := 0, clean := true, dynamicFilters := false,
+                      subscriptions := ["$share/g/t"], tracker := { id := "a", requests := [stallReqA], status := .ready } },
+               some { clientId := "b", link := 1, clean := true, dynamicFilters := false,
+                      subscriptions := ["$share/g/t"], tracker := { id := "b", status := .paused .caughtup } }], []⟩,
+    connectionMap := [("a", 0), ("b", 1)], readyqueue := [0],
+    subscriptionMap := [("$share/g/t", [0, 1])],
+    shared := [("g/t", ⟨["a", "b"], 0, (0, 0), .roundRobin⟩)],
+    datalog := { native := [{ filter := "t",
+                              log := (((CLog.Log.new 1024 2).append (⟨0, 0, false, false, [116], [1], none, [], false⟩ : Pub) 6).1.append
+                                      (⟨0, 0, false, false, [116], [2], none, [], false⟩ : Pub) 6).1,
+                              waiters := [(1, stallReqB)] }],
+                 filterIndexes := [("t", 0)] } }
+
+/-- non-vacuity, `consume`: `a`'s round-robin sweep forwards one entry and passes the turn to the
+    parked `b`; at the end of `consume` `b`'s request is back in its tracker and `b` is scheduled
+    (`a`, whose next sweep found it was not its turn and nothing more to read, was parked and is woken too) -/
+example : ∃ s', consume stallState2 = .ok (s', true) ∧
+    (getLink s' 0).obuf.length = 1 ∧
+    (alookup "g/t" s'.shared).map (fun g => (g.current, g.cursor)) = some (some "b", (0, 1)) ∧
+    (getConn s' 1).map (fun c => (c.tracker.requests, c.tracker.status)) = some ([stallReqB], .ready) ∧
+    s'.readyqueue = [1, 0] ∧ s'.datalog.native.map (·.waiters) = [[]] ∧ s'.turnMoved = [] :=
+  ⟨_, (consume_eqX _).trans rfl, by decide, by decide, by decide, by decide, by decide, by decide⟩
 
 end C17
